@@ -504,7 +504,7 @@ class Interp:
         it = self.by_name.get(name)
         if it is None:
             # call-site spelling differs from the item header; match on the trailing 'fn::promoted[N]' of this function
-            tail = mp._last_segments(name)
+            tail = mp._last_segments(mp.strip_generics(name))
             cands = [x for x in self.items if x.kind == 'const' and x.last == tail]
             # prefer the one belonging to the currently executing function
             cur = fr.item.name if fr is not None else ''
